@@ -196,6 +196,14 @@ def replay_scenario(failing):
         for w in runloop.check_expectation({'text': inp['text'], 'run': inp.get('run', {}), 'expect': exp}, o):
             print('expectation : ' + w)
             bad.append(w)
+    if not bad and o.get('parse') == 'ok' and inp.get('exp_logged'):
+        # what the statements of every executed part write is known by construction (recorded with the input)
+        for idx, exp_out in sorted(inp['exp_logged'].items()):
+            got_out = (o.get('logged_stdout') or {}).get(int(idx))
+            if int(idx) != o.get('failidx') and got_out is not None and (got_out or '') != exp_out:
+                w = 'part %s logged stdout %r, its statements wrote %r' % (idx, got_out, exp_out)
+                print('logged      : ' + w)
+                bad.append(w)
     if not bad and o.get('parse') == 'ok':
         for w in runloop.check_values_generic(o):
             print('values      : ' + w)
